@@ -199,7 +199,7 @@ fn run_input(ctx: &mut Ctx, player: &mut Player, input: &Value) {
 
 fn generate(ctx: &mut Ctx) -> Vec<Value> {
     let mut cases = Vec::new();
-    let n = ctx.budget(32, 600);
+    let n = ctx.budget(32, 480);
     let mut i = 0;
     let mut attempts = 0;
     while i < n && attempts < 20 * n {
